@@ -46,6 +46,16 @@ func runP1Big(args []string) error {
 		if singular {
 			nf, nv = 9, 86
 		}
+		// the limits of the volume search: exactly 99 volumes; file count + volume count = 256
+		lastVolOnly := false
+		switch idx {
+		case 4:
+			nf, nv = 3, 99
+		case 6:
+			nf, nv, lastVolOnly = 4, 99, true
+		case 8:
+			nf, nv, lastVolOnly = 200, 56, true
+		}
 		var names []string
 		prot := map[string][]byte{}
 		anyNonEmpty := false
@@ -54,6 +64,9 @@ func runP1Big(args []string) error {
 			sz := []int{0, 1, 2, 7, 100, 1000, 5000, 16383, 16384, 16385, 20000 + rng.Intn(50000)}[rng.Intn(11)]
 			if nf > 12 && sz > 5000 {
 				sz = rng.Intn(3000)
+			}
+			if nf > 100 {
+				sz = rng.Intn(40)
 			}
 			if nv > 30 && sz > 2000 {
 				sz = rng.Intn(2000)
@@ -115,7 +128,16 @@ func runP1Big(args []string) error {
 		}
 		perm := rng.Perm(nf)
 		vols := []int{}
-		if singular {
+		if lastVolOnly {
+			// one file is lost and only the highest-numbered volume survives
+			disk[names[nf/2]] = nil
+			dmg = []string{"delete " + names[nf/2], fmt.Sprintf("keep only volume %d", nv)}
+			vols = []int{nv}
+		} else if idx == 4 {
+			for v := 1; v <= nv; v++ {
+				vols = append(vols, v)
+			}
+		} else if singular {
 			// entries 1 and 8 are destroyed; only volumes 1 and 86 survive: 1^85 = 8^85 in GF(2^8)
 			if gfref.Pow8(1, 85) != gfref.Pow8(8, 85) {
 				return fmt.Errorf("singular construction wrong")
